@@ -65,6 +65,12 @@ PYFORMS = {
     # expression raises RuntimeError('bad-item') before the probe is reached
     # (only generated where the option raising_forms asks for it)
     "bad_item": "(bad.attr, %s)[1]",
+    # one class, three instances: the first has the name as an item only,
+    # the second as an attribute *and* an item - attribute first, whatever
+    # an earlier instance of the class was answered from
+    "attr_per_instance": "((qrec0.title, qrec1.title) == ('i0', 'a1') and %s)",
+    "attr_per_instance2": "((qrec0.title, qrec1.title, qrec0.title) == "
+                          "('i0', 'a1', 'i0') and %s)",
 }
 RAISING_FORMS = {"bad_item": (RuntimeError, ("bad-item",))}
 # bare names under exists: (name -> does evaluating it succeed?)
@@ -88,6 +94,18 @@ class ItemOnly:
 
     def __getitem__(self, key):
         return self._d[key]
+
+
+class Rec:
+    """Instances of one class that differ in what they offer under a name:
+    an instance attribute, an item, both."""
+
+    def __init__(self, items, **attrs):
+        self._items = items
+        self.__dict__.update(attrs)
+
+    def __getitem__(self, key):
+        return self._items[key]
 
 
 class _Gone:
@@ -117,7 +135,9 @@ RENDER_ARGS = {"zbig": 10 ** 5000, "zdead": _dead_proxy(), "bad": BadItem(),
                "a": "A", "kw": "K", "n": "N",
                "dd": {"get": "G", "keys": "K", "items": "I", "x": 1,
                       "ident": _ident},
-               "io": ItemOnly({"x": 1, "ident": _ident})}
+               "io": ItemOnly({"x": 1, "ident": _ident}),
+               "qrec0": Rec({"title": "i0"}),
+               "qrec1": Rec({"title": "i1"}, title="a1")}
 
 TAGS = ["div", "span", "p", "b", "ul", "li", "section", "em"]
 
